@@ -150,6 +150,11 @@ func (f *Frame) call(c *ssa.CallCommon, in ssa.Instruction) Val {
 			return f.closureCall(cf, all, args, in, rt)
 		}
 	}
+	if g.P.assumedPureDynamic(c.Value) {
+		// callback field named in a `pure-dynamic` directive: assumed not to write anything (listed assumption)
+		g.Assumptions["pure-dynamic: calls through the named callback field are assumed not to modify the heap"] = true
+		return f.havocCall(&ModSet{Maps: map[string]bool{}}, rt, "dyn")
+	}
 	g.note("dynamic call through a function value: havoc")
 	return f.havocCall(&ModSet{All: true}, rt, "dyn")
 }
@@ -261,6 +266,9 @@ func (f *Frame) staticCall(fn *ssa.Function, args []Val, in ssa.Instruction, rt 
 	if fc := g.P.ContractFor(fn); fc != nil {
 		if fc.Opts["pure"] != "" {
 			return g.applyPure(fn, fc, args, f.curReach)
+		}
+		if fc.Opts["heappure"] != "" {
+			return f.applyHeapPure(fn, fc, args, in, rt)
 		}
 		return f.applyContract(fn, fc, args, in, rt)
 	}
@@ -604,6 +612,84 @@ func (g *Gen) applyPure(fn *ssa.Function, fc *FuncContract, args []Val, reach st
 	if fc.Trusted {
 		g.Assumptions["trusted contract (assumed, body not verified): "+name+": "+clauseTexts(fc)] = true
 	}
+	return r
+}
+
+// heapStable reports whether the heap visible to callees is the same at every point of the function (or
+// lemma) being verified: it declares `modifies nothing` (checked by its #frame obligation). Only then may
+// a heap-reading deterministic function be modelled as an uninterpreted function of its arguments alone.
+func (g *Gen) heapStable() bool {
+	if g.FC == nil {
+		return true
+	}
+	if !g.FC.HasMods {
+		return false
+	}
+	ms := g.P.DeclaredMods(g.FC)
+	return !ms.All && !ms.Std && len(ms.Maps) == 0
+}
+
+func heapPureUF(fn *ssa.Function) string { return "hp!" + sanitize(fullName(fn)) }
+
+// applyHeapPure: a call of a function declared `opt heappure` (deterministic, modifies nothing, reads the
+// heap). Inside a heap-stable function the result is hp!F(args) and the callee's ensures are assumed once
+// for these arguments in the current heap (this is the induction hypothesis when F calls itself; the
+// ensures may mention hp!F on sub-terms, which stay uninterpreted). Elsewhere the result is havocked.
+func (f *Frame) applyHeapPure(fn *ssa.Function, fc *FuncContract, args []Val, in ssa.Instruction, rt types.Type) Val {
+	g := f.g
+	name := fullName(fn)
+	if !g.heapStable() {
+		g.note("heap-dependent pure function " + name + " called from a function that may modify the heap: result havocked")
+		return f.havocCall(&ModSet{Maps: map[string]bool{}}, rt, fn.Name())
+	}
+	if fn.Signature.Results().Len() != 1 {
+		panic(specError{"heappure contract needs exactly one result: " + name})
+	}
+	uf := heapPureUF(fn)
+	var sorts, as []string
+	for _, a := range args {
+		sorts = append(sorts, a.Sort)
+		as = append(as, a.S)
+	}
+	g.declFun(uf, sorts, g.sortOf(rt))
+	r := Val{S: app(uf, as...), Sort: g.sortOf(rt), GT: rt}
+	g.calleeContracts[name] = true
+	if g.pureSeen[r.S] {
+		return r
+	}
+	g.pureSeen[r.S] = true
+	bind := map[string]Val{}
+	for i, p := range fn.Params {
+		if i < len(args) {
+			bind[p.Name()] = args[i]
+		}
+	}
+	pre := f.cur
+	env := &Env{g: g, f: nil, heap: pre, old: pre, bind: bind, results: []Val{r}, pkg: fn.Pkg.Pkg, reach: f.curReach}
+	k := 0
+	for _, c := range fc.Clauses {
+		switch c.Kind {
+		case "requires":
+			goal := env.trBool(c.E)
+			if f.top {
+				g.callSeq++
+				g.addOblig(&Oblig{Name: f.obName(fmt.Sprintf("call%d.%s.requires", g.callSeq, fn.Name()), c, k), Kind: "call-requires",
+					Goal: implies(f.curReach, goal), Pos: f.posOf(in), Text: c.Text})
+			}
+			g.assume(implies(f.curReach, goal))
+			k++
+		}
+	}
+	for _, c := range fc.Clauses {
+		if c.Kind == "ensures" {
+			g.assumeDef(r.S, implies(f.curReach, env.trBool(c.E)))
+		}
+	}
+	f.assumeTypeInv(r)
+	if fc.Trusted {
+		g.Assumptions["trusted contract (assumed, body not verified): "+name+": "+clauseTexts(fc)] = true
+	}
+	g.Assumptions["heappure: "+name+" is modelled as a deterministic function of its arguments in an unchanged heap (termination on acyclic ASTs assumed)"] = true
 	return r
 }
 
